@@ -520,6 +520,62 @@ func runValCluster(sc *valScenario) (res valResult) {
 					return
 				}
 				ob = []interface{}{"code", cliCode(vc.put(op[1].(string), key, v))}
+			case "bput":
+				// several writes queued in ONE pipeline before Exec: ["bput", [[keyhex, type, repr, "put"|"getput"], ...]]
+				items := op[1].([]interface{})
+				codes := make([]interface{}, len(items))
+				dm, err := vc.clusterDM()
+				if err != nil {
+					ob = []interface{}{"batch", cliCode(err)}
+					return
+				}
+				p, err := dm.Pipeline()
+				if err != nil {
+					ob = []interface{}{"batch", cliCode(err)}
+					return
+				}
+				defer p.Discard()
+				results := make([]func() error, len(items))
+				for i, it := range items {
+					x := it.([]interface{})
+					key := hexKey(x[0])
+					v, err := mkValue(x[1].(string), x[2].(string))
+					if err != nil {
+						codes[i] = "badinput:" + err.Error()
+						continue
+					}
+					if x[3].(string) == "getput" {
+						f, err := p.GetPut(vc.ctx, key, v)
+						if err != nil {
+							codes[i] = cliCode(err)
+							continue
+						}
+						results[i] = func() error {
+							_, err := f.Result()
+							if errors.Is(err, olric.ErrNilResponse) {
+								err = nil
+							}
+							return err
+						}
+					} else {
+						f, err := p.Put(vc.ctx, key, v)
+						if err != nil {
+							codes[i] = cliCode(err)
+							continue
+						}
+						results[i] = f.Result
+					}
+				}
+				if err := p.Exec(vc.ctx); err != nil {
+					ob = []interface{}{"batch", cliCode(err)}
+					return
+				}
+				for i, r := range results {
+					if r != nil {
+						codes[i] = cliCode(r())
+					}
+				}
+				ob = []interface{}{"batch", "nil", codes}
 			case "get":
 				key := hexKey(op[2])
 				t := op[3].(string)
